@@ -1,11 +1,36 @@
-/* LD_PRELOAD entropy shim for the real tx3c binary (C18/L2).
- * std's RandomState takes its SipHash keys from getrandom(2) through a weak
- * symbol that std documents as an interposition point.  The bytes handed out
- * here are a pure function of VERIF_HASH_SEED and the call counter. */
+/* LD_PRELOAD shim for the real tx3c binary (C18, process level).
+ *
+ * 1. Entropy seam.  std's RandomState takes its SipHash keys from getrandom(2) through a weak
+ *    symbol that std documents as an interposition point.  The bytes handed out here are a pure
+ *    function of VERIF_HASH_SEED and the call counter.
+ *
+ * 2. File-system seam (only when VERIF_SCHED_DIR, VERIF_SCHED_OUT and VERIF_SCHED_IN are set).
+ *    Every file-system call that touches a path under VERIF_SCHED_DIR - open / creat / openat,
+ *    write, fsync, fdatasync, ftruncate, rename, unlink, close - is a scheduling point: the
+ *    process announces the call on the pipe VERIF_SCHED_OUT ("op detail\n") and parks until the
+ *    simulator answers with one byte on VERIF_SCHED_IN:
+ *        g  go ahead
+ *        k  crash now, before the call (_exit(137))
+ *        K  perform the call, then crash
+ *        i  fail the call with EINTR (nothing done)
+ *        s  short write: write only the first half (write only)
+ *        e  fail the call with EIO (nothing done)
+ *        n  fail the call with ENOSPC (nothing done)
+ *    The simulator thus decides, from its tape, how the calls of several processes interleave and
+ *    where each process dies or meets an I/O error; which process runs is never left to the kernel
+ *    while one of them is inside the scheduled directory.  tx3c is single-threaded. */
+#define _GNU_SOURCE
+#include <dlfcn.h>
+#include <errno.h>
+#include <fcntl.h>
+#include <stdarg.h>
 #include <stddef.h>
 #include <stdint.h>
+#include <stdio.h>
 #include <stdlib.h>
+#include <string.h>
 #include <sys/types.h>
+#include <unistd.h>
 
 static uint64_t state;
 static int init;
@@ -33,4 +58,257 @@ ssize_t getrandom(void *buf, size_t len, unsigned int flags) {
         for (int k = 0; k < 8 && i < len; k++, i++) p[i] = (unsigned char)(v >> (8 * k));
     }
     return (ssize_t)len;
+}
+
+/* ------------------------------------------------------------------ file-system seam */
+
+static int sched_init_done, sched_on, fd_out = -1, fd_in = -1;
+static char sched_dir[512];
+#define MAXFD 1024
+static unsigned char tracked[MAXFD];
+
+static ssize_t (*real_write)(int, const void *, size_t);
+static ssize_t (*real_read)(int, void *, size_t);
+static int (*real_close)(int);
+
+static void sched_setup(void) {
+    if (sched_init_done) return;
+    sched_init_done = 1;
+    real_write = dlsym(RTLD_NEXT, "write");
+    real_read = dlsym(RTLD_NEXT, "read");
+    real_close = dlsym(RTLD_NEXT, "close");
+    const char *d = getenv("VERIF_SCHED_DIR"), *o = getenv("VERIF_SCHED_OUT"), *i = getenv("VERIF_SCHED_IN");
+    if (d && o && i && strlen(d) < sizeof sched_dir) {
+        strcpy(sched_dir, d);
+        fd_out = atoi(o);
+        fd_in = atoi(i);
+        sched_on = 1;
+    }
+}
+
+static int under_dir(const char *path) {
+    return sched_on && path && strncmp(path, sched_dir, strlen(sched_dir)) == 0;
+}
+
+/* announce the call and wait for the verdict */
+static char ask(const char *op, const char *detail, long n) {
+    char line[900];
+    int len = snprintf(line, sizeof line, "%s %s %ld\n", op, detail ? detail : "-", n);
+    if (len < 0) return 'g';
+    if (len >= (int)sizeof line) len = sizeof line - 1, line[len - 1] = '\n';
+    ssize_t off = 0;
+    while (off < len) {
+        ssize_t w = real_write(fd_out, line + off, (size_t)(len - off));
+        if (w < 0) {
+            if (errno == EINTR) continue;
+            return 'g'; /* the simulator is gone: run free */
+        }
+        off += w;
+    }
+    char c = 'g';
+    for (;;) {
+        ssize_t r = real_read(fd_in, &c, 1);
+        if (r == 1) break;
+        if (r < 0 && errno == EINTR) continue;
+        return 'g';
+    }
+    if (c == 'k') _exit(137);
+    return c;
+}
+
+static int verdict_errno(char c) {
+    switch (c) {
+    case 'i': return EINTR;
+    case 'e': return EIO;
+    case 'n': return ENOSPC;
+    default: return 0;
+    }
+}
+
+static const char *fdname(int fd, char *buf, size_t n) {
+    char link[64];
+    snprintf(link, sizeof link, "/proc/self/fd/%d", fd);
+    ssize_t r = readlink(link, buf, n - 1);
+    if (r < 0) r = 0;
+    buf[r] = 0;
+    return buf;
+}
+
+static int do_open(const char *name, int (*real)(const char *, int, ...), const char *path, int flags, mode_t mode) {
+    sched_setup();
+    if (!under_dir(path)) return real(path, flags, mode);
+    char c = ask(name, path, flags);
+    int e = verdict_errno(c);
+    if (e) {
+        errno = e;
+        return -1;
+    }
+    int fd = real(path, flags, mode);
+    if (fd >= 0 && fd < MAXFD) tracked[fd] = 1;
+    if (c == 'K') _exit(137);
+    return fd;
+}
+
+int open(const char *path, int flags, ...) {
+    static int (*real)(const char *, int, ...);
+    if (!real) real = dlsym(RTLD_NEXT, "open");
+    mode_t mode = 0;
+    if (flags & (O_CREAT | O_TMPFILE)) {
+        va_list ap;
+        va_start(ap, flags);
+        mode = va_arg(ap, mode_t);
+        va_end(ap);
+    }
+    return do_open("open", real, path, flags, mode);
+}
+
+int open64(const char *path, int flags, ...) {
+    static int (*real)(const char *, int, ...);
+    if (!real) real = dlsym(RTLD_NEXT, "open64");
+    mode_t mode = 0;
+    if (flags & (O_CREAT | O_TMPFILE)) {
+        va_list ap;
+        va_start(ap, flags);
+        mode = va_arg(ap, mode_t);
+        va_end(ap);
+    }
+    return do_open("open", real, path, flags, mode);
+}
+
+int openat(int dirfd, const char *path, int flags, ...) {
+    static int (*real)(int, const char *, int, ...);
+    if (!real) real = dlsym(RTLD_NEXT, "openat");
+    mode_t mode = 0;
+    if (flags & (O_CREAT | O_TMPFILE)) {
+        va_list ap;
+        va_start(ap, flags);
+        mode = va_arg(ap, mode_t);
+        va_end(ap);
+    }
+    sched_setup();
+    if (!under_dir(path)) return real(dirfd, path, flags, mode);
+    char c = ask("open", path, flags);
+    int e = verdict_errno(c);
+    if (e) {
+        errno = e;
+        return -1;
+    }
+    int fd = real(dirfd, path, flags, mode);
+    if (fd >= 0 && fd < MAXFD) tracked[fd] = 1;
+    if (c == 'K') _exit(137);
+    return fd;
+}
+
+int openat64(int dirfd, const char *path, int flags, ...) {
+    mode_t mode = 0;
+    if (flags & (O_CREAT | O_TMPFILE)) {
+        va_list ap;
+        va_start(ap, flags);
+        mode = va_arg(ap, mode_t);
+        va_end(ap);
+    }
+    return openat(dirfd, path, flags, mode);
+}
+
+ssize_t write(int fd, const void *buf, size_t n) {
+    sched_setup();
+    if (!sched_on || fd < 0 || fd >= MAXFD || !tracked[fd]) return real_write(fd, buf, n);
+    char name[600];
+    char c = ask("write", fdname(fd, name, sizeof name), (long)n);
+    int e = verdict_errno(c);
+    if (e) {
+        errno = e;
+        return -1;
+    }
+    if (c == 's' && n > 1) n = n / 2;
+    ssize_t r = real_write(fd, buf, n);
+    if (c == 'K') _exit(137);
+    return r;
+}
+
+static int by_fd(const char *op, const char *sym, int fd, long arg, int kind) {
+    sched_setup();
+    int (*real1)(int) = NULL;
+    int (*real2)(int, off_t) = NULL;
+    if (kind == 1) real1 = dlsym(RTLD_NEXT, sym); else real2 = dlsym(RTLD_NEXT, sym);
+    if (!sched_on || fd < 0 || fd >= MAXFD || !tracked[fd]) return kind == 1 ? real1(fd) : real2(fd, (off_t)arg);
+    char name[600];
+    char c = ask(op, fdname(fd, name, sizeof name), arg);
+    int e = verdict_errno(c);
+    if (e) {
+        errno = e;
+        return -1;
+    }
+    int r = kind == 1 ? real1(fd) : real2(fd, (off_t)arg);
+    if (c == 'K') _exit(137);
+    return r;
+}
+
+int fsync(int fd) { return by_fd("fsync", "fsync", fd, 0, 1); }
+int fdatasync(int fd) { return by_fd("fsync", "fdatasync", fd, 0, 1); }
+int ftruncate(int fd, off_t len) { return by_fd("truncate", "ftruncate", fd, (long)len, 2); }
+int ftruncate64(int fd, off_t len) { return by_fd("truncate", "ftruncate64", fd, (long)len, 2); }
+
+int close(int fd) {
+    sched_setup();
+    if (!sched_on || fd < 0 || fd >= MAXFD || !tracked[fd]) return real_close(fd);
+    char name[600];
+    char c = ask("close", fdname(fd, name, sizeof name), 0);
+    tracked[fd] = 0;
+    /* close is not failed: std ignores its result; a crash verdict still applies */
+    int r = real_close(fd);
+    if (c == 'K') _exit(137);
+    return r;
+}
+
+int rename(const char *from, const char *to) {
+    static int (*real)(const char *, const char *);
+    if (!real) real = dlsym(RTLD_NEXT, "rename");
+    sched_setup();
+    if (!under_dir(from) && !under_dir(to)) return real(from, to);
+    char both[880];
+    snprintf(both, sizeof both, "%s->%s", from, to);
+    char c = ask("rename", both, 0);
+    int e = verdict_errno(c);
+    if (e) {
+        errno = e;
+        return -1;
+    }
+    int r = real(from, to);
+    if (c == 'K') _exit(137);
+    return r;
+}
+
+int renameat(int ofd, const char *from, int nfd, const char *to) {
+    static int (*real)(int, const char *, int, const char *);
+    if (!real) real = dlsym(RTLD_NEXT, "renameat");
+    sched_setup();
+    if (!under_dir(from) && !under_dir(to)) return real(ofd, from, nfd, to);
+    char both[880];
+    snprintf(both, sizeof both, "%s->%s", from, to);
+    char c = ask("rename", both, 0);
+    int e = verdict_errno(c);
+    if (e) {
+        errno = e;
+        return -1;
+    }
+    int r = real(ofd, from, nfd, to);
+    if (c == 'K') _exit(137);
+    return r;
+}
+
+int unlink(const char *path) {
+    static int (*real)(const char *);
+    if (!real) real = dlsym(RTLD_NEXT, "unlink");
+    sched_setup();
+    if (!under_dir(path)) return real(path);
+    char c = ask("unlink", path, 0);
+    int e = verdict_errno(c);
+    if (e) {
+        errno = e;
+        return -1;
+    }
+    int r = real(path);
+    if (c == 'K') _exit(137);
+    return r;
 }
